@@ -147,6 +147,7 @@ def module_attr(engine, st, m, name):
         "logging.getLogger": Builtin("getLogger"),
         "math.floor": Builtin("math.floor"),
         "math.ceil": Builtin("math.ceil"),
+        "math.trunc": Builtin("math.trunc"),
         "atexit.register": Builtin("atexit.register"),
         "asyncio.get_event_loop": Builtin("asyncio.get_event_loop"),
         "asyncio.wrap_future": Builtin("asyncio.wrap_future"),
